@@ -25,7 +25,7 @@ HEADER = ("From Coq Require Import List ZArith Bool Uint63.\nImport ListNotation
           "From GT Require Import WGModel WGSpec WGJudge.\n")
 CASE_TYPE = "list int"
 # files the judge needs that are not in the Require cone of the property theorems
-COQ_TARGETS = ["WGJudge.vo", "WGProg.vo", "WGSearch.vo"]
+COQ_TARGETS = ["WGJudge.vo", "WGProg.vo", "WGSearch.vo", "WGSimHand.vo", "WGSimProps.vo"]
 
 EXPORT_VERIF = '''package gsync
 
@@ -47,7 +47,8 @@ func verifYieldB(site int) bool {
 
 TRUSTED = [
     "Coq 8.16.1 kernel and VM (vm_compute); no native_compute; no axioms (Print Assumptions: closed under the global context)",
-    "hand-written machine coq/theories/WGModel.v (one micro-step per shared-memory operation); tied to the source by (T) the regenerated IR listing = hand copy and (C) step-by-step schedule replay on the real code",
+    "hand-written machine coq/theories/WGModel.v (one micro-step per shared-memory operation); tied to the source by (T) a simulation check-list (WGSim.wg_sim_ok) PROVED on every run for the IR regenerated from the source - helpers, loop forms and locals as the source has them - and (C) step-by-step schedule replay on the real code",
+    "the denotation of the IR (coq/theories/Base/ConcIR2.v: statements, calls of file-local helpers, loops, break/continue, freshness discipline for unpublished structs) and the memory interface WGDenote.wg_mem (what Load / CompareAndSwap / close do); Inc/Dec and WaitCTX/WaitTimeout are tied by comparing their regenerated wrapper term / select summary with a stored one",
     "sequentially consistent sync/atomic, Go channel close semantics (modelled, exercised through the real operations in the replay)",
     "harness/cmd/xlate_conc (go/ast instrumenter + IR printer), harness/internal/vsched (baton scheduler), harness/cmd/c01 (programs, schedules, observation by Count() and non-blocking select), Go 1.23 toolchain",
     "the free-running Go scheduler and timers are runtime behaviour: exercised by the WaitTimeout probe and the -race stress run, not part of the proof (partial)",
@@ -55,6 +56,8 @@ TRUSTED = [
 
 ASSUMPTIONS = [
     "interleaving semantics at the granularity of single atomic/close operations under sequentially consistent atomics",
+    "DOMAIN RESTRICTION: the count and every delta are mathematical integers (Coq Z) in model and theorems; Go's int is 64 bit and wraps (4 x Add(1<<62) gives count 0 and closes the channel), so the theorems speak about callers whose running count never leaves the range of int; the harness uses |delta| <= 3",
+    "WaitTimeout/WaitCTX: logical time (the deadline passes after k scheduling attempts of the caller at its select, for every k); runtime timers, contexts and the fairness of Go's select are runtime behaviour exercised by the probes only",
     "client programs: goroutines calling Add(+n)/Add(0)/Add(-n)/Wait on a group made by NewSelectableWaitGroup; schedules are generated so that the conservative lower bound never goes negative (a decrement is issued only after increments covering it have returned)",
 ]
 
@@ -72,8 +75,13 @@ def prepare(ctx):
         return None, None, "xlate_conc build failed:\n" + log
     src = os.path.join(repo, "gsync", "selectable_wait_group.go")
     ir = os.path.join(ctx.gen, "WGProgGen.v")
+    ctx.wg_sites = os.path.join(ctx.scratch, "sites.json")
+    ctx.wg_sitemap = os.path.join(ctx.scratch, "sitemap.json")
+    ctx.wg_ir2 = os.path.join(ctx.gen, "WGProgGen2.v")
     rc, out = vlib.sh([xl, "-src", src, "-instr", src, "-ir", ir, "-funcs", "Add,Wait,Count",
-                       "-codes", "Add=1,Wait=2,Count=3"], timeout=120)
+                       "-codes", "Add=1,Wait=2,Count=3", "-sites", ctx.wg_sites,
+                       "-ir2", ctx.wg_ir2, "-sitemap", ctx.wg_sitemap,
+                       "-timed", "WaitCTX,WaitTimeout", "-wrappers", "Inc,Dec"], timeout=120)
     note = ""
     if rc != 0:
         note = "xlate_conc cannot instrument gsync/selectable_wait_group.go:\n" + out
@@ -87,17 +95,70 @@ def prepare(ctx):
     return binp, ir, note
 
 
+TIE2 = """From GT Require Import Base.Conc.
+From GT Require Import Base.ConcIR2.
+From GT Require Import WGModel WGSpec WGSim WGProg2 WGSimHand WGSimProps.
+From GTgen Require Import WGProgGen2.
+(* the semantic tie: the machine of the theorems is the denotation of the regenerated IR.
+   `exact hand_sim_ok` typechecks when the regenerated term is the committed one; otherwise the
+   check-list is proved afresh for the regenerated term. *)
+Theorem tie : wg_sim_ok gen_prog2 gen_sitemap.
+Proof. first [ exact hand_sim_ok | wg_sim_tac ]. Qed.
+(* one shared-memory operation per yield point: the micro-steps are single operations *)
+Definition tie_granularity : prog2_ops_wf gen_prog2 = true := eq_refl.
+Theorem tie_C01 : forall progs sched,
+  c01_ok (tr (dwg2_exec gen_prog2 gen_sitemap progs sched)) = true.
+Proof. exact (C01_of_source gen_prog2 gen_sitemap tie). Qed.
+Theorem tie_C02 : forall progs sched,
+  c02_ok (tr (dwg2_exec gen_prog2 gen_sitemap progs sched)) = true.
+Proof. exact (C02_of_source gen_prog2 gen_sitemap tie). Qed.
+Print Assumptions tie.
+Print Assumptions tie_C01.
+Print Assumptions tie_C02.
+"""
+
+
 def tie(ctx, ir):
-    """(T): regenerated IR = hand copy.  Returns (ok, which, detail); which in
-    current|pinned|unknown"""
+    """(T): the machine of the theorems is the denotation of the IR regenerated from the source
+    (WGSim.wg_sim_ok, proved for the regenerated term on every run).  Returns (ok, which, detail);
+    which in current (the regenerated IR is the committed one) | equivalent (different term, the
+    simulation check-list is proved for it) | pinned | same-sites | unknown"""
     rc, out = vlib.sh(["timeout", "300", "coqc", "-Q", vlib.THEORIES, "GT", "-Q", ctx.gen, "GTgen", ir],
                       cwd=ctx.gen, timeout=330)
     if rc != 0:
         return False, "unknown", "generated IR does not compile:\n" + out[-2000:]
-    rc, out = ctx.coq_eval("WGTie", "From GT Require Import WGProg.\nFrom GTgen Require Import WGProgGen.\n"
-                           "Definition tie : gen_prog = hand_prog := eq_refl.\n", timeout=300)
-    if rc == 0:
-        return True, "current", "gen_prog = hand_prog by eq_refl"
+    ir2 = getattr(ctx, "wg_ir2", None)
+    detail2 = "no second IR"
+    if ir2 and os.path.isfile(ir2):
+        rc, out = vlib.sh(["timeout", "300", "coqc", "-Q", vlib.THEORIES, "GT", "-Q", ctx.gen, "GTgen", ir2],
+                          cwd=ctx.gen, timeout=330)
+        if rc != 0:
+            detail2 = "generated IR (ConcIR2) does not compile:\n" + out[-2000:]
+        else:
+            t0 = time.time()
+            rc, out = ctx.coq_eval("WGTie2", TIE2, timeout=900)
+            if rc == 0 and out.count("Closed under the global context") == 3:
+                rcs, _ = ctx.coq_eval("WGTieSame", "From GT Require Import WGProg2.\nFrom GTgen Require Import WGProgGen2.\n"
+                                      "Definition same : gen_prog2 = hand_prog2 /\\ gen_sitemap = hand_sitemap := conj eq_refl eq_refl.\n",
+                                      timeout=120)
+                which = "current" if rcs == 0 else "equivalent"
+                ctx.cov["tie_T_seconds"] = round(time.time() - t0, 1)
+                # Inc / Dec (wrappers of Add) and the deadline selects WaitCTX / WaitTimeout
+                rca, outa = ctx.coq_eval("WGTieAux", "From GT Require Import WGProg2 WGTimed.\nFrom GTgen Require Import WGProgGen2.\n"
+                                         "Definition tie_wrappers : gen_wrappers = hand_wrappers := eq_refl.\n"
+                                         "Definition tie_timed : gen_timed = hand_timed := eq_refl.\n", timeout=120)
+                if rca != 0:
+                    return False, which, ("Add/Wait/Count pass the simulation check-list, but Inc/Dec are not the one-line "
+                                          "wrappers of Add(+1)/Add(-1) or WaitCTX/WaitTimeout are not `select { case <-deadline: "
+                                          "return err; case <-wg.Wait(): return nil }` (WGTimed.hand_timed):\n" + outa[-1500:])
+                return True, which, ("wg_sim_ok gen_prog2 gen_sitemap proved (%s): the machine of the theorems is the "
+                                     "denotation of the regenerated IR; Print Assumptions closed" % (
+                                         "the regenerated term is the committed hand_prog2" if which == "current"
+                                         else "regenerated term differs from hand_prog2, check-list proved afresh in %.0fs" % (time.time() - t0)))
+            if rc == 0:
+                detail2 = "semantic tie compiled but Print Assumptions is not closed:\n" + out[-1500:]
+            else:
+                detail2 = "wg_sim_ok gen_prog2 gen_sitemap could not be proved (%.0fs):\n%s" % (time.time() - t0, out[-1500:])
     rc2, _ = ctx.coq_eval("WGTieOrig", "From GT Require Import WGProg.\nFrom GTgen Require Import WGProgGen.\n"
                           "Definition tie_orig : gen_prog = hand_prog_orig := eq_refl.\n", timeout=300)
     if rc2 == 0:
@@ -109,7 +170,7 @@ def tie(ctx, ir):
                           "From GTgen Require Import WGProgGen.\n"
                           "Definition same_sites : map func_site_ops gen_prog = map func_site_ops hand_prog := eq_refl.\n",
                           timeout=300)
-    return False, ("same-sites" if rc3 == 0 else "unknown"), "gen_prog <> hand_prog:\n" + out[-1500:]
+    return False, ("same-sites" if rc3 == 0 else "unknown"), detail2
 
 
 def run_harness(ctx, binp, runs, timeout=3000):
@@ -118,7 +179,12 @@ def run_harness(ctx, binp, runs, timeout=3000):
     terms, jsons, enums = [], [], []
     for tag, args in runs:
         prefix = os.path.join(ctx.scratch, "cases_%s" % tag)
-        rc, out = vlib.sh([binp, "-seed", str(ctx.seed), "-out", prefix] + [str(a) for a in args],
+        sites = getattr(ctx, "wg_sites", None)
+        extra = ["-sites", sites] if sites and os.path.isfile(sites) else []
+        smap = getattr(ctx, "wg_sitemap", None)
+        if smap and os.path.isfile(smap):
+            extra += ["-sitemap", smap]
+        rc, out = vlib.sh([binp, "-seed", str(ctx.seed), "-out", prefix] + extra + [str(a) for a in args],
                           timeout=timeout)
         if rc != 0:
             return terms, jsons, enums, "harness %s failed (rc %d):\n%s" % (tag, rc, out[-3000:])
@@ -204,7 +270,12 @@ def replay_batch(ctx, binp, cands, tag):
     with open(f, "w") as fh:
         json.dump({"batch": batch}, fh)
     prefix = os.path.join(ctx.scratch, "rp_%s" % tag)
-    rc, out = vlib.sh([binp, "-seed", str(ctx.seed), "-out", prefix, "-mode", "replay", "-file", f],
+    extra = []
+    if getattr(ctx, "wg_sites", None) and os.path.isfile(ctx.wg_sites):
+        extra += ["-sites", ctx.wg_sites]
+    if getattr(ctx, "wg_sitemap", None) and os.path.isfile(ctx.wg_sitemap):
+        extra += ["-sitemap", ctx.wg_sitemap]
+    rc, out = vlib.sh([binp, "-seed", str(ctx.seed), "-out", prefix, "-mode", "replay", "-file", f] + extra,
                       timeout=600)
     if rc != 0 or not os.path.isfile(prefix + ".cases"):
         return [None] * len(cands), [None] * len(cands)
@@ -255,6 +326,10 @@ def minimise(ctx, binp, judge_name, j, rounds=8):
 def call_str(c):
     if c["k"] == "wait":
         return "Wait"
+    if c.get("via") == "inc":
+        return "Inc()"
+    if c.get("via") == "dec":
+        return "Dec()"
     d = c.get("d", 0)
     return "Add(0)" if d == 0 else "Add(%+d)" % d
 
@@ -284,6 +359,10 @@ def view(j):
     return {"program": prog_str(j["progs"]), "progs": j["progs"], "sched": j["sched"],
             "name": j.get("name"), "kind": j.get("kind"), "preemptions": j.get("preemptions"),
             "wait_timeout_probe": {0: "nil", 1: "ErrWGTimeout", 2: "hung (watchdog)", 3: "not probed"}[j["tmo"]],
+            "probes_at_rest": ["after step %d: WaitTimeout -> %s, WaitCTX(cancelled ctx) -> %s" % (
+                p["pos"], ["nil", "ErrWGTimeout", "hung (watchdog)", "not called"][p["code"] // 4],
+                ["nil", "the context's error", "hung (watchdog)", "not called"][p["code"] % 4])
+                for p in (j.get("probes") or [])],
             "steps": steps}
 
 
@@ -364,10 +443,12 @@ def run_check(ctx, pid):
         tok, which, tdetail = tie(ctx, ir)
         ctx.log("tie (T):", "OK" if tok else "BROKEN", "-", tdetail.splitlines()[0])
         ctx.cov["tie_T"] = {"ok": tok, "which": which,
-                            "means": "gen_prog (IR regenerated from the source) = hand_prog, whose denotation "
-                                     "is the machine of the theorems (WGDenote.denote_current)"}
+                            "means": "WGSim.wg_sim_ok gen_prog2 gen_sitemap: a simulation check-list proved for the IR "
+                                     "regenerated from the source (helpers, loop forms, locals as the source has them); "
+                                     "by WGSim.wg_sim the denotation of that IR and the machine of the theorems have the "
+                                     "same memory and trace for every client program and schedule"}
         if not tok:
-            broken.append(("tie WGProgGen.gen_prog = WGProg.hand_prog (translator tie)", tdetail, {"kind": "tie"}))
+            broken.append(("tie WGSim.wg_sim_ok gen_prog2 gen_sitemap (semantic translator tie)", tdetail, {"kind": "tie"}))
     elif binp:
         ctx.log("tie (T): BROKEN - the source is outside the instrumenter's subset")
         ctx.cov["tie_T"] = {"ok": False, "which": "not-instrumentable"}
@@ -380,7 +461,7 @@ def run_check(ctx, pid):
         return
     # the machine's micro-steps line up with the code's only when the shared-memory operations are
     # the modelled ones; otherwise the recorded traces are judged by the monitor alone
-    structural = which in ("current", "same-sites")
+    structural = which in ("current", "equivalent", "same-sites")
     judge_name = {"C01": "c01", "C02": "c02"}[pid] + ("_judge" if structural else "_trace_judge")
     ctx.cov["judging"] = ("per-step comparison with the model + monitor" if structural else
                           "trace only (the source's shared-memory operations are not the modelled ones): monitor verdicts, no model comparison")
@@ -393,8 +474,11 @@ def run_check(ctx, pid):
             runs = [("corpus", ["-mode", "corpus"]),
                     ("pb1", ["-mode", "pb", "-pre", 1, "-tmoevery", 7]),
                     ("pb2", ["-mode", "pb", "-pre", 2, "-progs", "0,2,4,12,14", "-tmoevery", 15]),
-                    ("random", ["-mode", "random", "-n", 24, "-tmoevery", 5]),
-                    ("randprog", ["-mode", "randprog", "-n", 70, "-tmoevery", 5])]
+                    # directed search: one goroutine loses k = 1..6 compare-and-swap rounds in a row
+                    # / meets a state driven away and back (ABA); every <=3-preemption tail
+                    ("starve", ["-mode", "starve", "-pre", 3, "-k", 6, "-n", 2, "-tmoevery", 9]),
+                    ("random", ["-mode", "random", "-n", 40, "-tmoevery", 7]),
+                    ("randprog", ["-mode", "randprog", "-n", 200, "-tmoevery", 7])]
         else:
             runs = [("corpus", ["-mode", "corpus"]),
                     # every schedule of every 2-goroutine program of the catalogue
@@ -403,12 +487,14 @@ def run_check(ctx, pid):
                     ("pb2", ["-mode", "pb", "-pre", 2, "-tmoevery", 50]),
                     ("pb3", ["-mode", "pb", "-pre", 3, "-progs", "0,1,5", "-max", 60000, "-tmoevery", 200]),
                     ("exh3", ["-mode", "exhaustive", "-progs", "0", "-max", 60000, "-tmoevery", 200]),
+                    ("starve", ["-mode", "starve", "-pre", 4, "-k", 8, "-n", 20, "-max", 20000, "-tmoevery", 100]),
                     ("random", ["-mode", "random", "-n", 600, "-tmoevery", 20]),
                     ("randprog", ["-mode", "randprog", "-n", 3000, "-tmoevery", 20])]
         if not structural and quick:
             # a different algorithm (e.g. lock based) has many more yield points per call: cap the
             # enumerations of the quick tier; the widened search below has its own caps
-            runs = [(t, a + (["-max", 1500] if a[1] in ("pb", "exhaustive") else [])) for t, a in runs]
+            runs = [(t, a + (["-max", 1500] if a[1] in ("pb", "exhaustive") else
+                             ["-max", 250] if a[1] == "starve" else [])) for t, a in runs]
         terms, jsons, enums, err = run_harness(ctx, binp, runs)
         if err:
             ctx.report({"unchecked": "harness run", "detail": err}, {"kind": "harness"}, failing_input=False)
@@ -528,7 +614,30 @@ def run_check(ctx, pid):
     if not quick:
         stress(ctx)
     nontriv = [j for j in jsons if j["preemptions"] > 0]
+    # cases inside the property's domain (the conservative lower bound never negative), recomputed
+    # here from the recorded events: the scheduler gates decrements so that ALL cases should be
+    indom = 0
+    for j in jsons:
+        lb, ok_dom = 0, True
+        for it in j["obs"]:
+            c = it.get("call") or {}
+            d = c.get("d", 0) if c.get("k") == "add" else 0
+            if it["ev"] == "call" and d < 0:
+                lb += d
+            if it["ev"] == "ret" and d > 0:
+                lb += d
+            ok_dom = ok_dom and lb >= 0
+        indom += ok_dom
+    if jsons and indom < len(jsons) and ctx.wg_instrumented:
+        ctx.report({"unchecked": "generator gating: %d of %d scheduled cases are outside the property's domain (lower bound negative) and were judged 0" % (len(jsons) - indom, len(jsons))},
+                   {"kind": "harness"}, failing_input=False)
+    probes = [p for j in jsons for p in (j.get("probes") or [])]
     ctx.cov.update({
+        "in_domain_cases": indom,
+        "calls_through_inc_dec": sum(1 for j in jsons for p in j["progs"] for c in p if c.get("via")),
+        "rest_probes": {"count": len(probes),
+                        "WaitTimeout": hist(["nil", "ErrWGTimeout", "hung", "not called"][p["code"] // 4] for p in probes),
+                        "WaitCTX_cancelled_ctx": hist(["nil", "ctx error", "hung", "not called"][p["code"] % 4] for p in probes)},
         "evaluations": len(jsons),
         "steps_compared": sum(len(j["obs"]) for j in jsons),
         "distinct_nontrivial": vlib.distinct_count([[j["progs"], j["sched"]] for j in nontriv]),
@@ -589,7 +698,7 @@ def replay(ctx, pid, path):
     tok, which = False, "unknown"
     if ir:
         tok, which, _ = tie(ctx, ir)
-    structural = which in ("current", "same-sites")
+    structural = which in ("current", "equivalent", "same-sites")
     judge_name = {"C01": "c01", "C02": "c02"}[pid] + ("_judge" if structural else "_trace_judge")
     bad, _, err = judge(ctx, judge_name, [terms[0]], "replay")
     print(json.dumps(view(jsons[0]), indent=1))
